@@ -38,12 +38,13 @@ constexpr double COND_PREMISE = 1e8;
 constexpr double TOL_DESCENT  = 1e-12;  // |J dx + r| <= |r| (1 + 1e-12)   (DESIGN C10)
 // not fixed by the statement: calibrated = max(100 x worst observed on the thorough alphabet, 64 eps)
 constexpr double EPS = 2.220446049250313e-16;
-// dphi: error relative to the forward-error scale (see dphi_scale); worst observed (thorough, pinned tree): see report
-constexpr double TOL_DPHI = 1e-12;
-// lambda returned by solve_trust_region vs 1/Delta: worst observed 0 (correctly rounded division)
+// dphi: error relative to |dphi_ref| + forward-error scale (see build_RO); worst observed on the thorough alphabet
+// (pinned tree, all four representations, 388 591 judgements): 1.0e-16  ->  100 x worst = 1.0e-14 < 64 eps
+constexpr double TOL_DPHI = 64 * EPS;
+// lambda returned by solve_trust_region vs 1/Delta evaluated in long double: worst observed 4.6e-17 (half an ulp)
 constexpr double TOL_LAMBDA = 64 * EPS;
-// colwise_norm relative to the norm: worst observed: see report
-constexpr double TOL_CWNORM = 64 * EPS;
+// colwise_norm relative to the column norm: worst observed 3.08e-16 (sparse, 40 rows) -> 100 x worst
+constexpr double TOL_CWNORM = 3.1e-14;
 // dphi is judged while the long-double oracle resolves the forward-error scale and first-order analysis applies
 constexpr double COND_DPHI = 1e12;
 
@@ -584,10 +585,10 @@ MC_SUBCHECK(c_solve_trust_region)
         L s     = 0;
         for (int i = 0; i < P.m; ++i) s += (jx[size_t(i)] + (L)r(i)) * (jx[size_t(i)] + (L)r(i));
         s = std::sqrt(s);
-        e = q.nr == 0 ? (double)s : (double)(s / q.nr - 1);
+        e = q.nr == 0 ? (s == 0 ? 0.0 : (double)INFINITY) : (double)(s / q.nr - 1);  // r = 0: the step must be J-null
       }
-      if (e < 0) c.outcome("strict descent");
-      c.judge(N.descent[a].c_str(), e, q.nr == 0 ? 0.0 : TOL_DESCENT);
+      if (a == DENSE_DYN) c.outcome(e < 0 ? "strict descent (dense-dyn)" : "no strict descent (dense-dyn)");
+      c.judge(N.descent[a].c_str(), e, TOL_DESCENT);
     }
   });
 }
